@@ -305,7 +305,8 @@ namespace ip {
 			char* ptr = static_cast<char*>(buf.data());
 			int const len = int(buf.size());
 			int const to_copy = (std::min)(int(p.buffer.size()), len);
-			memcpy(ptr, p.buffer.data(), to_copy);
+			// an empty buffer in the sequence may have a null data pointer
+			if (to_copy > 0) memcpy(ptr, p.buffer.data(), to_copy);
 			read += to_copy;
 			p.buffer.erase(p.buffer.begin(), p.buffer.begin() + to_copy);
 			m_queue_size -= to_copy;
